@@ -6,7 +6,9 @@ From SopVerif Require Import Lib.Bytes Lifecycle.
 Import ListNotations.
 
 Inductive c14case :=
-| SeqCase (m : mode) (d0 : option store) (cs : list call) (impl_res : list result) (impl_disk : option store).
+| SeqCase (m : mode) (d0 : option store) (cs : list call) (impl_res : list result) (impl_disk : option store)
+(* several sequences evaluated by one case (thorough tier: coqc's start-up dominates small shards) *)
+| BatchCase (l : list c14case).
 
 Fixpoint results_eqb (a b : list result) : bool :=
   match a, b with
@@ -27,13 +29,44 @@ Definition disk_eqb (a b : option store) : bool :=
   | _, _ => false
   end.
 
+Definition is_item_op (c : call) : bool :=
+  match c with CAdd _ _ _ | CFind _ _ | CUpdate _ _ _ | CRemove _ _ => true | _ => false end.
+
+(* Result classes are compared exactly, with one exception: in a [stale] state (after a repeated
+   Phase1Commit has swapped the tree's nodes under the program's cursor — already a reported defect)
+   whether an item operation answers true or false depends on the B-tree's cursor cache, which this
+   model does not track; there only success / error / no-handle must agree. *)
+Definition result_agrees (st : bool) (c : call) (model impl : result) : bool :=
+  if st && is_item_op c && is_success model then is_success impl else result_eqb model impl.
+
+Fixpoint check_run (s : state) (cs : list call) (ir : list result) : option state :=
+  match cs, ir with
+  | [], [] => Some s
+  | c :: cs', r :: ir' =>
+      let '(mr, s1) := step s c in
+      if result_agrees (stale s) c mr r then check_run s1 cs' ir' else None
+  | _, _ => None
+  end.
+
+Definition c14_check_seq (m : mode) (d0 : option store) (cs : list call) (ir : list result) (idk : option store) : bool :=
+  match check_run (init m d0) cs ir with
+  | Some s => disk_eqb (view (disk s)) idk
+  | None => false
+  end.
+
 Definition c14_check (c : c14case) : bool :=
   match c with
-  | SeqCase m d0 cs ir idk =>
-      let '(mr, s) := run (init m d0) cs in
-      results_eqb mr ir && disk_eqb (view (disk s)) idk
+  | SeqCase m d0 cs ir idk => c14_check_seq m d0 cs ir idk
+  | BatchCase l =>
+      forallb (fun c' => match c' with
+                         | SeqCase m d0 cs ir idk => c14_check_seq m d0 cs ir idk
+                         | BatchCase _ => false
+                         end) l
   end.
 
 (* for debugging a mismatch: what the model says *)
 Definition c14_model (c : c14case) : list result * option store :=
-  match c with SeqCase m d0 cs _ _ => let '(mr, s) := run (init m d0) cs in (mr, view (disk s)) end.
+  match c with
+  | SeqCase m d0 cs _ _ => let '(mr, s) := run (init m d0) cs in (mr, view (disk s))
+  | BatchCase _ => ([], None)
+  end.
